@@ -89,7 +89,9 @@ def signature(run):
 def mask_cause(x):
     """Cause texts quote history event ids; with the non-persistent store the history is lost by a crash (not part of the statement)."""
     if isinstance(x, dict):
-        return {k: ("<cause>" if k in ("Cause", "cause") and isinstance(v, str) else mask_cause(v)) for k, v in x.items()}
+        # (the start/stop dates of a child execution legitimately move with the time the engine was down)
+        return {k: ("<cause>" if k in ("Cause", "cause") and isinstance(v, str) else "<date>" if k in ("StartDate", "StopDate", "startDate", "stopDate") and isinstance(v, (int, float))
+                    else mask_cause(v)) for k, v in x.items()}
     if isinstance(x, list):
         return [mask_cause(v) for v in x]
     return x
